@@ -772,7 +772,11 @@ func CheckPredPointer(res *ChurnResult) (findings []Finding) {
 		if i >= 3 {
 			break
 		}
-		findings = append(findings, Finding{Key: "predecessor-moved-away-from-live-node", What: r.String(),
+		key := "predecessor-moved-away-from-live-node"
+		if r.Succ {
+			key = "successor-moved-away-from-live-node"
+		}
+		findings = append(findings, Finding{Key: key, What: r.String(),
 			Witness: map[string]any{"regression": r, "member_log": res.MemberLog, "hook_log": tailStr(res.HookLog, 80)}})
 	}
 	return
